@@ -10,6 +10,8 @@ import (
 	"io"
 	"math/rand"
 	"reflect"
+	"strconv"
+	"strings"
 	"sync"
 
 	"github.com/gotd/td/telegram/downloader"
@@ -33,6 +35,7 @@ type dlMock struct {
 	iv     []byte
 	token  []byte
 	event  string
+	evAt   int
 	evDone bool
 	nCDN   int
 	nData  int
@@ -158,10 +161,14 @@ func (c dlCDN) UploadGetCDNFile(ctx context.Context, r *tg.UploadGetCDNFileReque
 	m.mu.Lock()
 	defer m.mu.Unlock()
 	m.nCDN++
-	if !m.evDone && m.event != "none" && m.nCDN == 2 {
+	if !m.evDone && m.event != "none" && m.nCDN == m.evAt {
 		m.evDone = true
-		if m.event == "reupload" {
+		switch m.event {
+		case "reupload":
 			return &tg.UploadCDNFileReuploadNeeded{RequestToken: []byte("rq")}, nil
+		case "token_invalid_direct":
+			// master answers the refresh with the file itself instead of a new redirect
+			m.cdnOn = false
 		}
 		return nil, tgerr.New(400, "FILE_TOKEN_INVALID")
 	}
@@ -263,8 +270,13 @@ func init() {
 				m.base = ((size - 1) / m.part) * m.part
 			}
 		}
+		m.evAt = 2
 		if v := tr.Str(in["event"]); v != "" {
 			m.event = v
+			if i := strings.IndexByte(v, '@'); i >= 0 {
+				m.event = v[:i]
+				m.evAt, _ = strconv.Atoi(v[i+1:])
+			}
 		}
 		d := downloader.NewDownloader().WithPartSize(m.part)
 		if kind == "cdn" {
